@@ -135,7 +135,7 @@ def scan_forbidden():
     return bad
 
 # ---- running the two executables ---------------------------------------------------------------
-def run_lines(exe, lines, extra_args=(), timeout=3000, shards=None, ulimit_stack=True):
+def run_lines(exe, lines, extra_args=(), timeout=3000, shards=None, ulimit_stack=True, env=None):
     """Feed case lines to an executable, sharded over the cores; returns output lines in order."""
     if not lines:
         return []
@@ -146,7 +146,8 @@ def run_lines(exe, lines, extra_args=(), timeout=3000, shards=None, ulimit_stack
         cmd = [exe] + list(extra_args)
         if ulimit_stack:
             cmd = ["bash", "-c", "ulimit -s unlimited 2>/dev/null; exec \"$0\" \"$@\"", exe] + list(extra_args)
-        p = subprocess.Popen(cmd, stdin=subprocess.PIPE, stdout=subprocess.PIPE, stderr=subprocess.PIPE)
+        p = subprocess.Popen(cmd, stdin=subprocess.PIPE, stdout=subprocess.PIPE, stderr=subprocess.PIPE,
+                             env=(dict(os.environ, **env) if env else None))
         procs.append((p, ch))
     outs = []
     import threading
@@ -205,3 +206,29 @@ def write_evidence(pid, tier_, seed_, coverage, wall, violations, assumptions):
           "coverage": coverage, "assumptions": assumptions, "wall_s": round(wall, 2),
           "violations": violations}
     json.dump(ev, open(os.path.join(d, pid + ".json"), "w"), indent=1)
+
+
+# ---- oracle tables for the encoder model (dumped from the Go runtime at check time) ----------------
+def oracle_env(pid, lines):
+    """IsPrint table and %g texts of every float occurring in the case lines"""
+    import struct
+    d = os.path.join(WORK, pid)
+    os.makedirs(d, exist_ok=True)
+    isp = os.path.join(d, "isprint.txt")
+    out = implrun(["isprint-table"], shards=1)
+    open(isp, "w").write(out[0] + "\n")
+    bits = set()
+    for l in lines:
+        for m in re.finditer(r"\bf:([0-9a-f]{16})\b", l):
+            bits.add(m.group(1))
+        for m in re.finditer(r"\bf32:([0-9a-f]{8})\b", l):
+            f = struct.unpack(">f", bytes.fromhex(m.group(1)))[0]
+            bits.add("%016x" % struct.unpack(">Q", struct.pack(">d", f))[0])
+    bits = sorted(bits)
+    texts = implrun(["fmtg " + b for b in bits], shards=1) if bits else []
+    fm = os.path.join(d, "fmtg.txt")
+    with open(fm, "w") as f:
+        for b, t in zip(bits, texts):
+            if t.startswith("ok "):
+                f.write("%s %s\n" % (b, t[3:]))
+    return {"VERIF_ISPRINT": isp, "VERIF_FMTG": fm}, dict(zip(bits, texts))
